@@ -41,6 +41,11 @@ def _common_random(rng, n_levels, n_leaves):
         'n_extra_genes': (int(rng.integers(260, 400))
                           if rng.random() < 0.08 else None),
         'extra_first': bool(rng.random() < 0.5),
+        # HDF5 storage layout of the query matrix (None = what anndata
+        # writes: contiguous)
+        'h5_layout': (str(rng.choice(['cols', 'rows', 'tall', 'wide',
+                                      'small', 'gzip']))
+                      if rng.random() < 0.3 else None),
     }
 
 
@@ -145,5 +150,6 @@ def features_of(spec, w=None):
         'norm': spec.get('normalization'),
         'markers': spec.get('marker_class'),
         'minm': spec.get('min_markers'),
+        'layout': spec.get('h5_layout'),
     }
     return f
